@@ -33,6 +33,7 @@ type Obligation struct {
 	Model   string
 	SMTSize int
 	Output  string
+	statusTerm string
 }
 
 type Val struct {
@@ -97,6 +98,7 @@ type Unit struct {
 	safety  bool // generate panic-freedom obligations
 	overflow bool
 	bv      bool
+	sweep   bool // schematic mode: inline helpers with loops, abstract what is unknown
 	axHeap  *Heap
 	modelTerms []string
 }
@@ -255,14 +257,24 @@ func (u *Unit) derive(l *Link, name string) string {
 		}
 	case "loop":
 		p := u.hget(l.parent, name)
-		if l.mod != nil && !l.mod[name] && !l.mod["*"] {
+		explicit := l.mod == nil || l.mod[name]
+		star := l.mod != nil && l.mod["*"]
+		switch {
+		case !explicit && !star:
 			t = p
-		} else if strings.HasPrefix(name, "$g.") && l.mod != nil && !l.mod[name] {
+		case !explicit && strings.HasPrefix(name, "$g."):
 			t = p
-		} else {
+		default:
 			t = u.fresh(name+"@l", sort)
 			if name == "$top" {
 				u.emit("(assert (>= " + t + " " + p + "))")
+			}
+			if !explicit && strings.HasPrefix(sort, "(Array Int") {
+				// havoced only because of calls with unknown effects: objects allocated by this
+				// activation that never escaped keep their contents
+				for _, r := range l.keep {
+					u.emit("(assert (= " + sel(t, r) + " " + sel(p, r) + "))")
+				}
 			}
 		}
 	default:
